@@ -59,6 +59,27 @@ def _classify_index(ctx, f, arg, upd, sop, ft):
                     it = ctx.norm.xtext(f, n.iter)
                     if f"FeatureType.{ft}" in it or it.startswith("range(") or ".machines" in it:
                         return "all"
+                    # a selection (comprehension) over something else
+                    src = n.iter
+                    for _ in range(3):
+                        if isinstance(src, ast.Name):
+                            ds = [d for d in ctx.flow.defs(f).of(src.id) if d[0] == "value"]
+                            if len(ds) == 1:
+                                src = ds[0][1]
+                                continue
+                        if isinstance(src, (ast.ListComp, ast.SetComp, ast.GeneratorExp)) and len(src.generators) == 1:
+                            src = src.generators[0].iter
+                            continue
+                        if isinstance(src, ast.Call) and isinstance(src.func, ast.Name) and src.func.id in ("list", "sorted", "tuple", "set") and src.args:
+                            src = src.args[0]
+                            continue
+                        break
+                    st = ast.unparse(src)
+                    if st.startswith("range("):
+                        return "all"
+                    if isinstance(src, ast.Attribute) and isinstance(src.value, ast.Name) and src.value.id == "self":
+                        # entities still to examine are kept as observer state
+                        return ("state", src.attr)
         ds = ctx.flow.defs(f).of(arg.id)
         if len(ds) == 1 and ds[0][0] == "value":
             return _classify_index(ctx, f, ds[0][1], upd, sop, ft)
@@ -248,6 +269,27 @@ def run(ctx):
                 chk.violation("R17.c", f, call, f"the completed {kind} node is looked up but never removed", loc=f.loc(call))
             elif not guarded:
                 chk.violation("R17.c", f, rmc[0], f"a {kind} node is removed without testing IsCompletedObserver's flag == 1 and that it is still present", loc=f.loc(rmc[0]))
+            elif isinstance(cls_, tuple) and cls_[0] == "state":
+                rst = repo.method(upd_cls, "reset")
+                strong = {w.attr for w in lc.attr_writes(rst, upd_cls) if w.kind in ("rebind", "overwrite")} if rst else set()
+                init = repo.method(upd_cls, "__init__")
+                full = False
+                for w in (lc.attr_writes(init, upd_cls) if init else []):
+                    if w.attr == cls_[1] and w.kind == "rebind":
+                        v = getattr(w.event.node, "value", None)
+                        full = v is not None and "range(" in ast.unparse(v)
+                if cls_[1] in strong and full:
+                    chk.ok("R17.c", f.qualname, f.loc(call), f"{kind}s still to examine are kept in self.{cls_[1]}, initialised to all of them and restored by reset")
+                elif not full:
+                    raise AnalysisError(f"{f.loc(call)}: initial content of self.{cls_[1]} not recognised")
+                else:
+                    chk.violation(
+                        "R17.c", f, call,
+                        f"the {kind}s whose completion flag is examined are taken from `self.{cls_[1]}`, which update "
+                        "shrinks and reset never restores: after a reset no (or not every) completed "
+                        f"{kind} is examined any more, so its node stays in the graph although all its operations are done",
+                        loc=f.loc(call),
+                    )
             elif cls_ == "all":
                 chk.ok("R17.c", f.qualname, f.loc(call), f"every {kind}'s completed flag examined; node removed iff flag == 1 and still present")
             elif cls_ == "dispatched" and kind == "job":
